@@ -5,6 +5,7 @@ use crate::engine::core::*;
 use crate::engine::tape::{Tape, fnv};
 use crate::model::astgen;
 use crate::model::data::*;
+use crate::model::optable::Fix;
 use crate::model::refparse::{Layout, Tok, render};
 use crate::model::sx::{self, Sx};
 use crate::model::value::{V, same};
@@ -410,8 +411,37 @@ impl C18Check {
                 // the tokens are certainly the same), 4b. a second block without effect directly in front of the added one
                 let mut glued = 0;
                 for at in 1..vtoks.len() {
-                    let after_block = matches!(&vtoks[at - 1], Tok::Close(']')) && matches!(&vtoks[at], Tok::Atom(..) | Tok::Open(_));
-                    let before_block = matches!(&vtoks[at], Tok::Open('[')) && matches!(&vtoks[at - 1], Tok::Atom(..) | Tok::Close(_));
+                    // the gap after a block is certainly no list space only where the block cannot belong to a value in front
+                    // of it: its `[` opens the program or follows an opening bracket or a prefix / binary operator that is
+                    // not a separator (after `1 ;` inside a group the block is the 1's, and the blank after `]` is the list space)
+                    let block_cannot_look_back = || {
+                        let mut depth = 0i32;
+                        let mut j = at - 1;
+                        loop {
+                            match &vtoks[j] {
+                                Tok::Close(']') => depth += 1,
+                                Tok::Open('[') => {
+                                    depth -= 1;
+                                    if depth == 0 {
+                                        break;
+                                    }
+                                }
+                                _ => {}
+                            }
+                            if j == 0 {
+                                return false;
+                            }
+                            j -= 1;
+                        }
+                        j == 0
+                            || match &vtoks[j - 1] {
+                                Tok::Open(c) => *c != '[',
+                                Tok::Op(o) => !matches!(o.fix, Fix::Suffix) && !matches!(o.def, "List" | "CommaList" | "Subexpression" | "ExpressionSeparator"),
+                                _ => false,
+                            }
+                    };
+                    let after_block = matches!(&vtoks[at - 1], Tok::Close(']')) && matches!(&vtoks[at], Tok::Atom(..) | Tok::Open(_)) && block_cannot_look_back();
+                    let before_block = matches!(&vtoks[at], Tok::Open('[')) && matches!(&vtoks[at - 1], Tok::Atom(..));
                     if !(after_block || before_block) || glued >= 4 {
                         continue;
                     }
